@@ -26,7 +26,7 @@ def rand_ops(rng, n, nslots=16, fill_heavy=False):
             ops.append("A%d:%d" % (s, rng.choice(SIZES)))
         elif r < 0.5:
             k = rng.choice([1, 2, 3, 8])
-            ops.append("C%d:%dx%d" % (s, k, rng.choice([1, 10, 16, 32, 64, 170, 200])))
+            ops.append("C%d:%dx%d" % (s, k, rng.choice([1, 10, 16, 32, 64, 170, 200, 513, 700, 5000])))
         elif r < 0.7:
             ops.append("R%d:%d" % (s, rng.choice(SIZES + [0])))
         elif r < 0.93:
@@ -134,10 +134,44 @@ def handover(rng):
     return lines
 
 
+G4 = 1 << 32
+HUGE = [G4, G4 + 1, G4 + 32, G4 + 100, G4 + 512, G4 + 513, 2 * G4 + 64, 3 * G4 + 500, (1 << 31) + 40, (1 << 30) + 7, (1 << 33) + 128]
+
+
+def huge_ops(rng):
+    """requests of a gigabyte and more (address space only, see vh_core.h VH_HUGE): acquired, grown to from a small block,
+    shrunk back to one, released, between ordinary small traffic that must not be disturbed"""
+    ops = rand_ops(rng, rng.randint(3, 10))
+    for _ in range(rng.randint(1, 3)):
+        s = rng.randrange(16, 30)
+        h = rng.choice(HUGE)
+        kind = rng.random()
+        if kind < 0.4:
+            ops += ["A%d:%d" % (s, h)]
+        elif kind < 0.7:
+            ops += ["A%d:%d" % (s, rng.choice([1, 32, 100, 512])), "R%d:%d" % (s, h)]
+        else:
+            ops += ["A%d:%d" % (s, rng.choice([513, 600, 5000])), "R%d:%d" % (s, h)]
+        ops += rand_ops(rng, rng.randint(1, 5)) + ["Q"]
+        ops += [rng.choice(["F%d" % s, "R%d:%d" % (s, rng.choice([0, 16, 512, 513, 4000])), "R%d:%d" % (s, rng.choice([0, 100]))])]
+        ops += rand_ops(rng, rng.randint(0, 4)) + ["Q"]
+    return ops
+
+
 def scenario(rng):
+    sc = scenario0(rng)
+    # the parent's optional entry points (calloc, realloc) are left out in some executions: the allocator must not need them
+    if rng.random() < 0.3:
+        sc[0] = sc[0] + " %d" % rng.choice([1, 1, 2, 3])
+    return sc
+
+
+def scenario0(rng):
     r = rng.random()
     if r < 0.08:
         return handover(rng)
+    if r < 0.14:
+        return ["SBA %d" % rng.choice([0, 1]), "MAIN " + " ".join(huge_ops(rng))]
     r = rng.random()
     if r < 0.35:
         return ["SBA %d" % rng.choice([0, 1]), "MAIN " + " ".join(rand_ops(rng, rng.randint(10, 38)))]
